@@ -200,3 +200,9 @@ def t_handlers(world):
 _t15 = tasks
 def tasks(tier):
     return _t15(tier) + [('handlers', t_handlers)]
+
+
+def kani(tier):
+    if tier != 'thorough': return []
+    return [dict(harness='panic_inductive', oid='C15.k', covers=1, stubs=5, desc='SECOND ENGINE (Kani/CBMC on the compiled code): PanicState::{pause, unpause, unpause_if_expired} - one step from any state satisfying Inv at any later time preserves Inv; each pause pushes the paused-until time by <= 30 min, never > 60 min ahead; an expired pause never blocks',
+                 functions=['marginfi::state::panic_state::PanicStateImpl::{pause, unpause, unpause_if_expired}', 'PanicState::{can_pause, is_expired}'], bounds='timestamps in [0, 2^40); all counter values; loop-free')]
